@@ -66,7 +66,7 @@ TRUSTED = ['translator harness/regen_gui.py (AST-free: imports the module and re
 ASSUMPTIONS = ['supported lattice families of DESIGN.md section 4; menu = _gui.codes/_gui.decoders + main.js (sizes 1..12, coprime L+1)']
 
 
-PROPERTY_MODULES = ['PanqecVerif.Properties.C20', 'PanqecVerif.Properties.C20Repr', 'PanqecVerif.Properties.C20Routes']
+PROPERTY_MODULES = ['PanqecVerif.Properties.C20', 'PanqecVerif.Properties.C20Repr', 'PanqecVerif.Properties.C20Routes', 'PanqecVerif.Properties.C20RoutesNoise']
 
 
 def regen(ctx):
